@@ -39,6 +39,16 @@ def cases(tier):
             forks = [[p] for p in pos] + [pos] + [[d], [d + 1], [d + 2], [d + 5], [e - 1]] + [[d + 2, d + 3]]
             for f in forks:
                 out.append({'cfg': {'scenario': 'codec', 'tag': d, 'elems': e, 'trailing': 0, 'noncanonical': f}, 'kind': 'codec'})
+            # points are opaque to the codec: bytes that decode to no group element at a point position are still accepted
+            ptpos = [d, d + 1, d + 2] + list(range(d + 5, e))
+            for pp in ptpos[:5] + ptpos[-1:]:
+                out.append({'cfg': {'scenario': 'codec', 'tag': d, 'elems': e, 'trailing': 0, 'noncanonical': [], 'undecodable': [pp]}, 'kind': 'codec'})
+            out.append({'cfg': {'scenario': 'codec', 'tag': d, 'elems': e, 'trailing': 0, 'noncanonical': [], 'undecodable': ptpos}, 'kind': 'codec'})
+            # canonical scalars from the very top of the range (and 0, 1) at every scalar position are accepted
+            for kind_ in ('minus_one', 'minus_two', 'two252', 'zero'):
+                for pp in pos:
+                    if k == 1 or pp in (0, d + 3, d + 4):
+                        out.append({'cfg': {'scenario': 'codec', 'tag': d, 'elems': e, 'trailing': 0, 'noncanonical': [], 'special_scalars': [[pp, kind_]]}, 'kind': 'codec'})
     # large proofs (many folding rounds): the acceptance set has no upper size limit
     for d in (1, 2, 6):
         for k in (9, 16, 17, 18, 20, 32, 40, 64):
@@ -70,7 +80,8 @@ def analyse(ctx, case, run, S):
     want = spec_ok(tag, e, t, nc)
     dec = o['decode']
     got = 'ok' if dec == 'ok' else ('panic' if dec == 'panic' else 'err')
-    name = 'tag=%s elems=%d trailing=%d noncanonical=%s' % (tag, e, t, nc)
+    name = 'tag=%s elems=%d trailing=%d noncanonical=%s%s%s' % (tag, e, t, nc, (' undecodable=%s' % cfg['undecodable']) if cfg.get('undecodable') else '',
+                                                                    (' special=%s' % cfg['special_scalars']) if cfg.get('special_scalars') else '')
     det = {'expect_decode': 'ok' if want else 'err'}
     cls = 'accepts-outside-spec' if got == 'ok' and not want else ('refuses-inside-spec' if want and got != 'ok' else 'x')
     ctx.expect(got != 'panic', 'C15:panic', '%s: from_bytes PANICKED' % name, cfg, 'any_panic')
@@ -81,7 +92,8 @@ def analyse(ctx, case, run, S):
         asked = [ev['detail'].get('elem') for ev in run.events_in(o['events']) if ev['ev'] == 'branch' and ev['kind'] == 'canonical']
         blobs = run.core['blobs']
         ks = [blobs[b]['k'] for b in o['elems']]
-        want_asked = [ks[p] for p in list(range(d)) + [d + 3, d + 4]]
+        lits = {it[0] for it in cfg.get('special_scalars', [])}
+        want_asked = [ks[p] for p in list(range(d)) + [d + 3, d + 4] if p not in lits]
         ctx.expect(sorted(asked) == sorted(want_asked), 'C15:canonicity-questions', '%s: canonicity was decided for elements %s, the scalar positions are %s' % (name, asked, want_asked), cfg, 'codec_mismatch', det)
         # solver: "accepted" implies the specification predicate, as a propositional validity over the canonicity atoms of this shape
         atoms = ' '.join('(declare-const c%d Bool)' % k for k in ks)
@@ -95,7 +107,7 @@ def analyse(ctx, case, run, S):
         ctx.D.record('path-implies-spec', name, ans, dt, 'unsat', '(assert %s)' % q)
         if ans != 'unsat':
             # the solver's counterexample: a scalar element whose canonicity was never asked is non-canonical
-            missing = [p for p in list(range(d)) + [d + 3, d + 4] if ks[p] not in asked]
+            missing = [p for p in list(range(d)) + [d + 3, d + 4] if ks[p] not in asked and p not in lits]
             ctx.findings.append(Finding(ctx.pid, 'C15:accepts-outside-spec', '%s: the accepting path does not establish canonicity of scalar element(s) %s' % (name, missing), cfg, 'codec_mismatch',
                                         {'expect_decode': 'err', 'replay_cfg': dict(cfg, noncanonical=missing[:1])}))
         ctx.expect(o.get('reencode_equal') is True, 'C15:reencode', '%s: to_bytes(from_bytes(b)) != b' % name, cfg, 'codec_mismatch', det)
